@@ -71,11 +71,17 @@ RingOnly(e) ==
 
 (* ---- arithmetic on exact values ------------------------------------------------------------ *)
 One(n) == WFromInt(1, n)
-(* division operands fit 64 bits under the precondition: divide on 9-byte words, extend back *)
+(* division operands fit 64 bits under the precondition: divide on 9-byte words, extend back.  Outside it (values
+   are also asked for when a case is classified) the operands may be longer - `Q << 31` is 2^94 - and their low 9
+   bytes may even be zero: then the division is made on the full words (a thorough-tier case stopped TLC with
+   "the second argument of \div is 0" before this guard) *)
+Short9(a, b) == WFitsS(a, 9) /\ WFitsS(b, 9)
 DivVals(a, b, n) ==
+    IF ~Short9(a, b) THEN {WSDivF(a, b), WSDivT(a, b)} ELSE
     LET a9 == WTrunc(a, 9)  b9 == WTrunc(b, 9) IN
     {WSext(WSDivF(a9, b9), n), WSext(WSDivT(a9, b9), n)}
 ModVals(a, b, n) ==
+    IF ~Short9(a, b) THEN {WSModF(a, b), WSModT(a, b)} ELSE
     LET a9 == WTrunc(a, 9)  b9 == WTrunc(b, 9) IN
     {WSext(WSModF(a9, b9), n), WSext(WSModT(a9, b9), n)}
 ShAmount(b) == b[1]                       \* valid when 0 <= b < 64 (checked by ShiftsOK)
